@@ -220,6 +220,22 @@ class Lib:
         c = self.partial_sums(ex, st, seq)
         return Seq(seq.n, lambda i: c(to_z3(i)), "array")
 
+    def sf_uf_real(self, ex, node, st):
+        """uf_real("name", a, b, ...): an uninterpreted real-valued function (shared by name with the
+        library models: 'splev', 'splint_F', ...).  The first argument after the name is an integer
+        identity when the library model uses one."""
+        name = ex.eval(node.args[0], st)
+        vals = [ex.eval(a, st) for a in node.args[1:]]
+        sorts, terms = [], []
+        for v in vals:
+            if sort_of(v) == "int":
+                sorts.append(I)
+                terms.append(to_z3(v))
+            else:
+                sorts.append(R)
+                terms.append(to_z3(as_real(v)))
+        return self.ctx.uf(name, *(sorts + [R]))(*terms)
+
     def sf_close(self, ex, node, st):
         """Equality of reals (SMT reading); equality up to rounding in the native reading."""
         return values_equal(as_real(ex.eval(node.args[0], st)), as_real(ex.eval(node.args[1], st)))
@@ -304,9 +320,11 @@ class Lib:
         mod = self.ctx.module(rf.module)
         fnode, cls = mod.functions[(rf.cls + "." if rf.cls else "") + rf.name]
         params = [a.arg for a in fnode.args.args]
+        bind = {}
         if cls and params and params[0] == "self":
             params = params[1:]
-        bind = {}
+            if rf.receiver is not None:
+                bind["self"] = rf.receiver
         ndef = len(fnode.args.defaults)
         for a, d in zip(fnode.args.args[len(fnode.args.args) - ndef:], fnode.args.defaults):
             try:
@@ -323,6 +341,8 @@ class Lib:
         missing = [p for p in params if p not in bind]
         if missing:
             raise EngineError("%s:L%d: call of %s misses %s" % (ex.fnname, node.lineno, rf.qualname, missing))
+        if cls and "self" not in bind:
+            raise EngineError("%s:L%d: method %s called without a receiver" % (ex.fnname, node.lineno, rf.qualname))
         fr = State()
         fr.locals = dict(bind)
         fr.locals["__old__"] = dict(bind)
@@ -407,7 +427,7 @@ class Lib:
             if attr in obj.fields:
                 return obj.fields[attr]
             if obj.kind == "self":
-                rf = self.ctx.method_of(ex, attr)
+                rf = self.ctx.method_of(ex, attr, obj)
                 if rf is not None:
                     return rf
                 raise EngineError("%s:L%d: attribute self.%s unknown to the contract" % (ex.fnname, node.lineno, attr))
@@ -625,6 +645,15 @@ class Lib:
         return zite(ex.cmp_eq(s.n, 0), zero, ps(to_z3(s.n) - 1))
 
     def partial_sums(self, ex, st, s):
+        # the same sequence object always gets the same partial-sum function
+        memo = self.ctx.__dict__.setdefault("_psum_memo", {})
+        if id(s) in memo and memo[id(s)][0] is s:
+            return memo[id(s)][1]
+        c = self._partial_sums(ex, st, s)
+        memo[id(s)] = (s, c)
+        return c
+
+    def _partial_sums(self, ex, st, s):
         real = s.ety() == "real"
         c = z3.Function(uid("psum"), I, R if real else I)
         conv = as_real if real else as_int
